@@ -553,8 +553,18 @@ pub fn size_part(rep: &mut Report, id: &str, tier: &str) {
     let sizes = if id == "C12" { vec![] } else { crate::esize::ladder(quick) };
     let specs = ["MemLib", "SqlLib", "SqlLibReopen", "MemHttp", "SqlHttp"];
     let mut tasks = vec![];
+    // the two smallest payloads as well: one byte everywhere, none at all through the library
+    // (the handlers refuse an empty body by design; the library and the backends take one)
+    let mut sizes = sizes;
+    if id != "C12" {
+        sizes.insert(0, 1);
+        sizes.insert(0, 0);
+    }
     for &sz in sizes.iter().rev() {
         for sp in specs {
+            if sz == 0 && sp.ends_with("Http") {
+                continue;
+            }
             for pl in 0..crate::esize::PLACES.len() {
                 // quick tier: the limit-sized payload as first version of a new client and as
                 // version + snapshot (the other two places are contained in the latter)
